@@ -125,6 +125,10 @@ pub struct WriteSpec {
     /// options are set twice on the builder, a decoy value first (the last call wins)
     #[serde(default)]
     pub decoy_opts: bool,
+    /// streamed writes in single-threaded driver processes only: the working directory changes
+    /// (to `<scratch>/cwd/d<n>`) between the last chunk and the commit
+    #[serde(default)]
+    pub chdir_mid: Option<usize>,
 }
 
 impl WriteSpec {
@@ -147,6 +151,7 @@ impl WriteSpec {
             cancel_chunk: None,
             aged_hours: 0,
             decoy_opts: false,
+            chdir_mid: None,
         }
     }
     pub fn streamed(&self) -> bool {
